@@ -138,6 +138,14 @@ def suite_config(ctx):
         else:
             lines.append('ed.hist c=%d changes=%s' % (c0, ','.join(str(x) for x in changes)))
             impl.append('%d %s' % (c.config['standard_version'], ','.join(outs)))
+    # the edition a client enforces when the caller does not say: the documented default
+    dd = cl.documented_defaults()
+    if 'standard_version' in dd:
+        c = Client(cl.stub.StubConn(cl.CLOCK))
+        s.evaluations += 1
+        if c.config['standard_version'] != dd['standard_version']:
+            s.fail({'site': 'Client.__init__', 'input': 'no configuration given', 'observed': 'standard_version %r' % (c.config['standard_version'],),
+                    'required': 'the documented default %r' % (dd['standard_version'],)})
     # values that are not one of the three integers: texts, floats, bytes, booleans, containers (accepted: nothing but 2006 / 2013 / 2020, and what equals them)
     odd = ['2013', ' 2013 ', '2020', b'2020', 2006.5, 2013.5, 2020.9, None, True, False, [2013], (2020,), {2013}, 2013.000001, -2013, '2013.0']
     for v in odd:
